@@ -372,6 +372,7 @@ type vfC14Cfg struct {
 	ids        []uint64
 	maxPending int // bound: DeleteRecordLazy is not expanded once PendingDeletes reached it
 	fullImage  bool // state key includes the leaf bytes of the image, not only its header
+	noInPlace  bool // no in-place WriteAt with the object kept, no image bytes in the state key
 }
 
 func vfC14NewCfg(nodeSize uint32, names []string, ids []uint64, maxPending int) *vfC14Cfg {
@@ -585,7 +586,7 @@ func (c *vfC14Ctx) key() string {
 	k := vfC14Canon(c.bt) + " | " + c.modelString()
 	// an object that was loaded from the image can write itself back in place: what the image
 	// holds at its header and leaf is then part of the state (the object may rely on it)
-	if c.mem != nil && c.bt.loadedHeaderAddress != 0 {
+	if c.mem != nil && c.bt.loadedHeaderAddress != 0 && !c.cfg.noInPlace {
 		// (not a CRC: the header ends with its own CRC-32, and the CRC of a block that includes its
 		// CRC is a constant)
 		h := fnv.New64a()
@@ -667,7 +668,10 @@ func (c *vfC14Ctx) enabled() []vfC14Op {
 	}
 	ops = append(ops, vfC14Op{K: vfC14Write}, vfC14Op{K: vfC14WriteLoad})
 	if c.bt.loadedHeaderAddress != 0 && c.mem != nil {
-		ops = append(ops, vfC14Op{K: vfC14WriteAtLoad}, vfC14Op{K: vfC14WriteAtKeep})
+		ops = append(ops, vfC14Op{K: vfC14WriteAtLoad})
+		if !cfg.noInPlace {
+			ops = append(ops, vfC14Op{K: vfC14WriteAtKeep})
+		}
 	}
 	return ops
 }
@@ -1490,20 +1494,24 @@ func TestVerif_C14(t *testing.T) {
 		maxPending = 4
 	}
 	cfg := vfC14NewCfg(43, names, ids, maxPending)
-	r.Set("image_bytes_in_state_key", "header of the loaded tree (record counts on disk); thorough: one more pass of the quick configuration with header and leaf")
+	// (thorough: the deeper lazy-delete bound runs without the in-place write of a kept object —
+	// with it the state space no longer fits in memory; that operation is explored by the two
+	// passes of the quick configuration below)
+	cfg.noInPlace = r.Thorough()
+	r.Set("image_bytes_in_state_key", "header of the loaded tree (record counts on disk) and the first 24 bytes of its leaf")
 	if cfg.hashes[2] != cfg.hashes[3] || names[2] == names[3] {
 		t.Fatalf("harness: colliding pair does not collide")
 	}
 	r.Set("bound_pending_lazy_deletes", maxPending)
 	vfC14BFS(t, r, cfg, 0)
 	if r.Thorough() {
-		// the quick configuration once more with the leaf bytes of the image in the state key
-		// (about 35 times the states; the larger configurations keep the header-only key)
-		cfgFull := vfC14NewCfg(43, names, ids, 2)
-		cfgFull.fullImage = true
-		vfC14BFS(t, r, cfgFull, 0)
+		// the quick configuration, with the in-place write of a kept object and the header bytes
+		// of the image in the state key (with the leaf bytes too the state space is about 35
+		// times larger and no longer fits in memory together with its replay paths)
+		vfC14BFS(t, r, vfC14NewCfg(43, names, ids, 2), 0)
 		// capacity 4 (node size 54), three ids
 		cfg2 := vfC14NewCfg(54, names, append(ids, 0x00112233445566FF), 2)
+		cfg2.noInPlace = true
 		vfC14BFS(t, r, cfg2, 0)
 	}
 	vfC14Edge(t, r)
